@@ -318,7 +318,8 @@ pub fn gen_c08(args: &Args) {
         if [11usize, 12, 14].contains(&p.pol) && (p.meth == 7 || p.meth == 8) {
             p = P { pol: p.pol, ..P::of_method(r.range(1, 6) as usize) };
         }
-        p.nl = if r.chance(1, 2) { 485_000 } else { r.range(-600_000, 600_000) };
+        // the substitute latitude is any latitude the constructor accepts (one sixth beyond +-60)
+        p.nl = if r.chance(1, 2) { 485_000 } else if r.chance(1, 3) { r.range(-900_000, 900_000) } else { r.range(-600_000, 600_000) };
         p.rnd = r.range(0, 3) as usize;
         if r.chance(1, 3) {
             for k in 0..7 {
@@ -349,6 +350,15 @@ pub fn gen_c08(args: &Args) {
         let mut p = P::of_method(7 + (i % 2) as usize);
         p.pol = *r_pick(&mut r, &[1usize, 2, 3, 4, 5, 6, 7, 8, 9, 10, 13]);
         p.nl = if r.chance(1, 2) { 485_000 } else { r.range(-600_000, 600_000) };
+        // every third: the band at the SUBSTITUTE latitude instead (nearest-latitude policies, site anywhere below it)
+        let (site, mut p) = if i % 3 == 2 {
+            let mut p = p;
+            p.pol = *r_pick(&mut r, &[2usize, 3, 4]);
+            p.nl = lat;
+            (Site { lat: r.range(-640_000, 640_000), ..site }, p)
+        } else {
+            (site, p)
+        };
         p.rnd = r.range(0, 3) as usize;
         let mut pn = p.clone();
         pn.pol = 0;
